@@ -28,7 +28,7 @@ func propC01(c *Ctx) {
 	ld, ins, upd, lat := loads[0], inss[0], upds[0], lats[0]
 	loaded := extractOf(ld, 0)
 	insBlocks := ins.Call.Args[3]
-	c.Check("R1.1", "Converge/insert-gets-loaded-slice", ins.Pos(), loaded != nil && stripConv(insBlocks) == loaded,
+	c.Check("R1.1", "Converge/insert-gets-loaded-slice", ins.Pos(), loaded != nil && stripConv(m.reg.Resolve(stripConv(insBlocks))) == loaded,
 		"the blocks argument of insert is result #0 of load")
 	for _, spec := range []struct {
 		arg  int
